@@ -26,16 +26,25 @@ pub const Q: u16 = 251;
 /// Scalar of Toy251.  Invariant: .0 < 251.
 #[derive(Clone, Copy, PartialEq, Eq, Debug)]
 pub struct S(pub u8);
+/// (a + b) mod 251 and (a - b) mod 251 for a, b < 251, by conditional subtraction (no division circuit:
+/// `%` costs CBMC far more than a comparison).
+fn add251(a: u8, b: u8) -> u8 {
+    let t = a as u16 + b as u16;
+    (if t >= Q { t - Q } else { t }) as u8
+}
+fn sub251(a: u8, b: u8) -> u8 {
+    (if a >= b { a as u16 - b as u16 } else { a as u16 + Q - b as u16 }) as u8
+}
 impl Add for S {
     type Output = S;
     fn add(self, o: S) -> S {
-        S(((self.0 as u16 + o.0 as u16) % Q) as u8)
+        S(add251(self.0, o.0))
     }
 }
 impl Sub for S {
     type Output = S;
     fn sub(self, o: S) -> S {
-        S(((self.0 as u16 + Q - o.0 as u16) % Q) as u8)
+        S(sub251(self.0, o.0))
     }
 }
 impl Mul for S {
@@ -51,13 +60,13 @@ pub struct E(pub u8);
 impl Add for E {
     type Output = E;
     fn add(self, o: E) -> E {
-        E(((self.0 as u16 + o.0 as u16) % Q) as u8)
+        E(add251(self.0, o.0))
     }
 }
 impl Sub for E {
     type Output = E;
     fn sub(self, o: E) -> E {
-        E(((self.0 as u16 + Q - o.0 as u16) % Q) as u8)
+        E(sub251(self.0, o.0))
     }
 }
 impl Mul<S> for E {
@@ -190,23 +199,6 @@ impl Ciphersuite for Toy251 {
     }
 }
 
-/// CRC-32 (IEEE) of b"TOY251", computed independently of const-crc32 by the harness `codec_header_*`
-/// (bitwise algorithm below) so that the header check has its own oracle.
-pub fn crc32_bitwise(data: &[u8]) -> u32 {
-    let mut crc: u32 = 0xFFFF_FFFF;
-    let mut i = 0;
-    while i < data.len() {
-        crc ^= data[i] as u32;
-        let mut k = 0;
-        while k < 8 {
-            crc = if crc & 1 != 0 { (crc >> 1) ^ 0xEDB8_8320 } else { crc >> 1 };
-            k += 1;
-        }
-        i += 1;
-    }
-    !crc
-}
-
 // ------------------------------------------------------------------------------------------------
 // Toy65537: field with more than 2^16 elements
 // ------------------------------------------------------------------------------------------------
@@ -214,16 +206,31 @@ pub const QW: u32 = 65537;
 
 #[derive(Clone, Copy, PartialEq, Eq, Debug)]
 pub struct SW(pub u32);
+fn addw(a: u32, b: u32) -> u32 {
+    let t = a + b;
+    if t >= QW {
+        t - QW
+    } else {
+        t
+    }
+}
+fn subw(a: u32, b: u32) -> u32 {
+    if a >= b {
+        a - b
+    } else {
+        a + QW - b
+    }
+}
 impl Add for SW {
     type Output = SW;
     fn add(self, o: SW) -> SW {
-        SW((self.0 + o.0) % QW)
+        SW(addw(self.0, o.0))
     }
 }
 impl Sub for SW {
     type Output = SW;
     fn sub(self, o: SW) -> SW {
-        SW((self.0 + QW - o.0) % QW)
+        SW(subw(self.0, o.0))
     }
 }
 impl Mul for SW {
@@ -237,13 +244,13 @@ pub struct EW(pub u32);
 impl Add for EW {
     type Output = EW;
     fn add(self, o: EW) -> EW {
-        EW((self.0 + o.0) % QW)
+        EW(addw(self.0, o.0))
     }
 }
 impl Sub for EW {
     type Output = EW;
     fn sub(self, o: EW) -> EW {
-        EW((self.0 + QW - o.0) % QW)
+        EW(subw(self.0, o.0))
     }
 }
 impl Mul<SW> for EW {
